@@ -9,9 +9,9 @@ from . import model as M
 
 def type_dict(t: M.Type) -> Dict[str, Any]:
     if isinstance(t, M.U):
-        return {"name": f"u{t.n}", "type": "unsigned"}
+        return {"name": M.type_text(t), "type": "unsigned"}
     if isinstance(t, M.I):
-        return {"name": f"i{t.n}", "type": "signed"}
+        return {"name": M.type_text(t), "type": "signed"}
     if isinstance(t, M.F32):
         return {"name": "f32", "type": "float"}
     if isinstance(t, M.F64):
@@ -117,9 +117,9 @@ def first_diff(a: Any, b: Any, path: str = "") -> str:
 # ----------------------------------------------------------------------- reflection
 def type_chain(t: M.Type) -> List[Dict[str, Any]]:
     if isinstance(t, M.U):
-        return [{"name": f"u{t.n}", "type": "unsigned", "size": 1}]
+        return [{"name": M.type_text(t), "type": "unsigned", "size": 1}]
     if isinstance(t, M.I):
-        return [{"name": f"i{t.n}", "type": "signed", "size": 1}]
+        return [{"name": M.type_text(t), "type": "signed", "size": 1}]
     if isinstance(t, M.F32):
         return [{"name": "f32", "type": "float", "size": 1}]
     if isinstance(t, M.F64):
